@@ -71,7 +71,7 @@ Fixpoint explicit_named (l : list (string * value)) (acc : named) : option named
   end.
 
 (* CallArgs::evaluate: the list splat extends the positional arguments, the map splat
-   goes through add_from_value_map (OrderMap::insert WITHOUT a duplicate check) *)
+   goes through add_from_value_map (since fix 5cd805f: an already present name is "Duplicate argument.") *)
 Definition splat_items (o : option value) : list value :=
   match o with
   | None => []
@@ -79,10 +79,10 @@ Definition splat_items (o : option value) : list value :=
   | Some VNull => []
   | Some v => [v]
   end.
-Definition add_map (m : named) (o : option (list (string * value))) : named :=
+Definition add_map (m : named) (o : option (list (string * value))) : option named :=
   match o with
-  | None => m
-  | Some kvs => fold_left (fun acc kv => fst (n_insert acc (norm (fst kv)) (snd kv))) kvs m
+  | None => Some m
+  | Some kvs => explicit_named kvs m
   end.
 
 (* the css::Value::ArgList arm: positional values are appended, every keyword is inserted and an
@@ -102,7 +102,10 @@ Definition call_evaluate (c : callT) : option (list value * named) :=
       match add_arglist n (c_asplat c) with
       | None => None
       | Some n' =>
-          Some (c_pos c ++ splat_items (c_lsplat c) ++ arglist_pos (c_asplat c), add_map n' (c_msplat c))
+          match add_map n' (c_msplat c) with
+          | None => None
+          | Some n'' => Some (c_pos c ++ splat_items (c_lsplat c) ++ arglist_pos (c_asplat c), n'')
+          end
       end
   end.
 
@@ -154,6 +157,9 @@ Definition formal_eval (s : sigT) (pos : list value) (nm : named) : bres :=
   else
     let taken := firstn n pos in                                (* take_positional *)
     let left := skipn n pos in
+    (* since fix 09ccabb: a keyword naming a positionally bound parameter is ArgsError::Twice *)
+    if existsb (fun p => match n_get nm (norm (fst p)) with Some _ => true | None => false end)
+               (firstn (length taken) (s_params s)) then BErr else
     let bound := map (fun pv => (norm (fst (fst pv)), snd pv)) (combine (s_params s) taken) in
     match bind_rest_params (skipn (length taken) (s_params s)) bound nm with
     | None => BErr
